@@ -16,9 +16,31 @@
     * the integer comparison arms (int64/uint64 in all four combinations, with the C++ unsigned conversions written out)
       are the order of the stored numbers, hence reflexive, antisymmetric, transitive and consistent with equality
       (`int_compare_is_order` and corollaries).
+    * the WHOLE of `basic_json::compare` (`JV.Model.Compare.compare` on `CVal`: every storage kind the switch has an arm for — null,
+      bool, int64, uint64, `json()` empty_object, float64 and half_float as IEEE-754 bit patterns, short/long strings, byte strings,
+      arrays, sorted objects — with the exact arm order, the kind-index fall-through defaults, `static_cast<double>(integer)` rounding
+      written out on the bits, `r = a - b; r == 0 ? 0 : (r < 0.0 ? -1 : 1)` including its NaN / inf - inf behaviour, and the vector
+      `==` / lexicographic `<` of arrays and objects; outside the model: number-tagged strings (finding D7, compared through
+      `as_double()` of their text), `json_ref` storage and the `this == &rhs` shortcut) is tied to the real `compare()` and the six
+      operators by the stream "compare-model" (`dom mcmp`, all ordered pairs of a 165-value boundary alphabet + generated nestings), and:
+        - `compare_refl`, `compare_antisymm`: for values without NaN and without infinity (`finite`), `compare a a = 0` and
+          `compare b a = - compare a b`; both fail with NaN and with two infinities (`nan_compares_greater_both_ways`,
+          `inf_not_equal_to_itself`: inf - inf is NaN);
+        - `eq_is_equivalence_partial`, `lt_is_strict_weak_order_partial`: on `dom L` — no NaN / infinity, no `json()` empty_object,
+          stored integers within ±2^53, strings all short (≤ 13 bytes, L = false) or all long (L = true) — `==` is reflexive, symmetric
+          and transitive, `<` is irreflexive and transitive, incomparability is `==` and is transitive, and `==` is a congruence
+          for `<` (`compare_le_trans` is the one fact behind them: `compare a b ≤ 0` is transitive; containers by lifting through
+          `vecCmp_le_trans`);
+        - the full statements are FALSE of the code, each shown by a closed counterexample (reproduced on the real code by the
+          op lines in the comments): `eq_not_transitive_beyond_2_53` (integers beyond 2^53 meet a double),
+          `lt_cycle_through_empty_object` (`json()` has kind index 4, between uint64 = 3 and float64 = 5),
+          `eq_not_congruent_empty_object` (`json() == json(json_object_arg)` but they order differently against every kind 5..12),
+          `lt_cycle_short_long_strings` (short_str = 7 < byte_str, object, array = 12..14 < long_str = 15, while two strings compare
+          as text), `lt_cycle_arrays_beyond_2_53`.
 -/
 import JV.Proofs.Dom
 import JV.Proofs.Compare
+import JV.Proofs.CompareOrder
 namespace JV
 namespace Props
 namespace C09
@@ -106,14 +128,14 @@ theorem sorted_keys_nodup (ms : List (Bytes × JVal)) (hs : Sorted ms) : (keys m
 
 open Model.Compare in
 theorem int_compare_is_order (a b : Stored) (ha : a.WF) (hb : b.WF) :
-    compare a b = (if a.val = b.val then 0 else if a.val < b.val then -1 else 1) := compare_spec a b ha hb
+    compareStored a b = (if a.val = b.val then 0 else if a.val < b.val then -1 else 1) := compare_spec a b ha hb
 
 open Model.Compare in
-theorem int_compare_refl (a : Stored) (ha : a.WF) : compare a a = 0 := by
+theorem int_compare_refl (a : Stored) (ha : a.WF) : compareStored a a = 0 := by
   rw [compare_spec a a ha ha]; simp
 
 open Model.Compare in
-theorem int_compare_antisymm (a b : Stored) (ha : a.WF) (hb : b.WF) : compare b a = - compare a b := by
+theorem int_compare_antisymm (a b : Stored) (ha : a.WF) (hb : b.WF) : compareStored b a = - compareStored a b := by
   rw [compare_spec a b ha hb, compare_spec b a hb ha]
   by_cases e : a.val = b.val
   · simp [e]
@@ -126,7 +148,7 @@ theorem int_compare_antisymm (a b : Stored) (ha : a.WF) (hb : b.WF) : compare b 
 
 open Model.Compare in
 theorem int_compare_trans (a b c : Stored) (ha : a.WF) (hb : b.WF) (hc : c.WF)
-    (h1 : compare a b < 0) (h2 : compare b c < 0) : compare a c < 0 := by
+    (h1 : compareStored a b < 0) (h2 : compareStored b c < 0) : compareStored a c < 0 := by
   rw [compare_spec a b ha hb] at h1
   rw [compare_spec b c hb hc] at h2
   rw [compare_spec a c ha hc]
@@ -148,17 +170,178 @@ theorem int_compare_trans (a b c : Stored) (ha : a.WF) (hb : b.WF) (hc : c.WF)
 
 open Model.Compare in
 /-- equality of the comparison is equality of the numbers, whatever the storage kinds -/
-theorem int_compare_eq_iff (a b : Stored) (ha : a.WF) (hb : b.WF) : compare a b = 0 ↔ a.val = b.val := by
+theorem int_compare_eq_iff (a b : Stored) (ha : a.WF) (hb : b.WF) : compareStored a b = 0 ↔ a.val = b.val := by
   rw [compare_spec a b ha hb]
   by_cases e : a.val = b.val
   · simp [e]
   · by_cases l : a.val < b.val <;> simp [e, l]
 
+/-! ### the whole of `basic_json::compare` -/
+
+section whole
+open Model.Compare
+
+/-- the integer arms of the whole model are the integer model of Part 1 -/
+theorem compare_integer_arms (a b : Stored) :
+    Compare.compare (match a with | .i64 v => .i64 v | .u64 v => .u64 v) (match b with | .i64 v => .i64 v | .u64 v => .u64 v) = compareStored a b := by
+  cases a <;> cases b <;> simp [Compare.compare, compareStored, cmpII, cmpIU, cmpUI, cmpUU]
+
+/-- `a == a` (two copies of a value) whenever the value holds no NaN and no infinity -/
+theorem compare_refl (a : CVal) (ha : finite a = true) : Compare.compare a a = 0 := compare_refl_fin a ha
+
+/-- `compare(b, a) = -compare(a, b)` whenever neither value holds a NaN or an infinity -/
+theorem compare_antisymm (a b : CVal) (ha : finite a = true) (hb : finite b = true) : Compare.compare b a = - Compare.compare a b :=
+  compare_antisymm_fin a b ha hb
+
+-- FULL STATEMENT (false): ∀ a, compare a a = 0   and   ∀ a b, compare b a = - compare a b
+/-- NaN: `r = a - b` is NaN, `r == 0` and `r < 0.0` are both false, so compare() answers 1 in both directions. `dom mcmp d7ff8000000000000 d3ff0000000000000` -/
+theorem nan_compares_greater_both_ways :
+    Compare.compare (.dbl 0x7ff8000000000000) (.dbl 0x3ff0000000000000) = 1 ∧ Compare.compare (.dbl 0x3ff0000000000000) (.dbl 0x7ff8000000000000) = 1 := by
+  simp only [Compare.compare]; decide
+
+/-- two infinities (distinct objects) are not equal: inf - inf is NaN. `dom mcmp d7ff0000000000000 d7ff0000000000000` -/
+theorem inf_not_equal_to_itself : opEq (.dbl 0x7ff0000000000000) (.dbl 0x7ff0000000000000) = false := by
+  simp only [opEq, Compare.compare]; decide
+
+/-- the total preorder behind everything below: on `dom L`, `compare a b ≤ 0` is transitive -/
+theorem compare_le_is_transitive (L : Bool) (a b c : CVal) (da : dom L a = true) (db : dom L b = true) (dc : dom L c = true)
+    (h1 : Compare.compare a b ≤ 0) (h2 : Compare.compare b c ≤ 0) : Compare.compare a c ≤ 0 := compare_le_trans L a b c da db dc h1 h2
+
+-- FULL STATEMENT (false, see the counterexamples below): for all a b c,  a == a,  a == b → b == a,  a == b → b == c → a == c
+/-- `operator==` is an equivalence relation on `dom L` -/
+theorem eq_is_equivalence_partial (L : Bool) :
+    (∀ a, dom L a = true → opEq a a = true) ∧
+    (∀ a b, dom L a = true → dom L b = true → opEq a b = true → opEq b a = true) ∧
+    (∀ a b c, dom L a = true → dom L b = true → dom L c = true → opEq a b = true → opEq b c = true → opEq a c = true) := by
+  refine ⟨?_, ?_, ?_⟩
+  · intro a da
+    simp [opEq, compare_refl_fin a (dom_finite L a da)]
+  · intro a b da db h
+    have := compare_antisymm_fin a b (dom_finite L a da) (dom_finite L b db)
+    simp only [opEq, beq_iff_eq] at *
+    omega
+  · intro a b c da db dc h1 h2
+    simp only [opEq, beq_iff_eq] at *
+    have fa := dom_finite L a da
+    have fb := dom_finite L b db
+    have fc := dom_finite L c dc
+    have t1 := compare_le_trans L a b c da db dc (by omega) (by omega)
+    have s1 := compare_antisymm_fin a b fa fb
+    have s2 := compare_antisymm_fin b c fb fc
+    have s3 := compare_antisymm_fin a c fa fc
+    have t2 := compare_le_trans L c b a dc db da (by omega) (by omega)
+    omega
+
+-- FULL STATEMENT (false, see the counterexamples below): for all a b c,  ¬ a < a,  a < b → b < c → a < c,
+--   (¬ a < b ∧ ¬ b < a) → (¬ b < c ∧ ¬ c < b) → (¬ a < c ∧ ¬ c < a),  and a == b ↔ (¬ a < b ∧ ¬ b < a)
+/-- `operator<` is a strict weak ordering on `dom L`, and its incomparability relation is `operator==` -/
+theorem lt_is_strict_weak_order_partial (L : Bool) :
+    (∀ a, dom L a = true → opLt a a = false) ∧
+    (∀ a b c, dom L a = true → dom L b = true → dom L c = true → opLt a b = true → opLt b c = true → opLt a c = true) ∧
+    (∀ a b c, dom L a = true → dom L b = true → dom L c = true →
+      (opLt a b = false ∧ opLt b a = false) → (opLt b c = false ∧ opLt c b = false) → (opLt a c = false ∧ opLt c a = false)) ∧
+    (∀ a b, dom L a = true → dom L b = true → (opEq a b = true ↔ (opLt a b = false ∧ opLt b a = false))) := by
+  refine ⟨?_, ?_, ?_, ?_⟩
+  · intro a da
+    simp [opLt, compare_refl_fin a (dom_finite L a da)]
+  · intro a b c da db dc h1 h2
+    simp only [opLt, decide_eq_true_eq] at *
+    have fa := dom_finite L a da
+    have fb := dom_finite L b db
+    have fc := dom_finite L c dc
+    have s1 := compare_antisymm_fin a b fa fb
+    have s2 := compare_antisymm_fin b c fb fc
+    have s3 := compare_antisymm_fin a c fa fc
+    apply Classical.byContradiction
+    intro hn
+    -- c ≤ a and a ≤ b give c ≤ b, against b < c
+    have := compare_le_trans L c a b dc da db (by omega) (by omega)
+    omega
+  · intro a b c da db dc h1 h2
+    simp only [opLt, decide_eq_false_iff_not] at *
+    have fa := dom_finite L a da
+    have fb := dom_finite L b db
+    have fc := dom_finite L c dc
+    have s1 := compare_antisymm_fin a b fa fb
+    have s2 := compare_antisymm_fin b c fb fc
+    have s3 := compare_antisymm_fin a c fa fc
+    have t1 := compare_le_trans L a b c da db dc (by omega) (by omega)
+    have t2 := compare_le_trans L c b a dc db da (by omega) (by omega)
+    omega
+  · intro a b da db
+    have s1 := compare_antisymm_fin a b (dom_finite L a da) (dom_finite L b db)
+    simp only [opEq, opLt, beq_iff_eq, decide_eq_false_iff_not]
+    omega
+
+/-- `a == b` implies `a < c ↔ b < c` and `c < a ↔ c < b` on `dom L` (`==` is a congruence for `<`) -/
+theorem eq_is_congruence_for_lt_partial (L : Bool) (a b c : CVal) (da : dom L a = true) (db : dom L b = true) (dc : dom L c = true)
+    (h : opEq a b = true) : opLt a c = opLt b c ∧ opLt c a = opLt c b := by
+  simp only [opEq, beq_iff_eq] at h
+  have fa := dom_finite L a da
+  have fb := dom_finite L b db
+  have fc := dom_finite L c dc
+  have s1 := compare_antisymm_fin a b fa fb
+  have s2 := compare_antisymm_fin b c fb fc
+  have s3 := compare_antisymm_fin a c fa fc
+  have t1 := compare_le_trans L a b c da db dc (by omega)
+  have t2 := compare_le_trans L b a c db da dc (by omega)
+  have t3 := compare_le_trans L c a b dc da db
+  have t4 := compare_le_trans L c b a dc db da
+  simp only [opLt]
+  constructor
+  · by_cases x : Compare.compare a c < 0 <;> by_cases y : Compare.compare b c < 0 <;> simp [x, y] <;> omega
+  · by_cases x : Compare.compare c a < 0 <;> by_cases y : Compare.compare c b < 0 <;> simp [x, y] <;> omega
+
+/-! #### the full statements fail on the code: closed counterexamples (each reproduced on the real code, op lines in the comments) -/
+
+/-- `==` is not transitive: 2^53+1 (int64) == 2^53 (double) == 2^53 (int64), the two integers differ.
+    `dom mcmp I9007199254740993 d4340000000000000` → c0; `dom mcmp d4340000000000000 I9007199254740992` → c0;
+    `dom mcmp I9007199254740993 I9007199254740992` → c1 -/
+theorem eq_not_transitive_beyond_2_53 :
+    opEq (.i64 9007199254740993) (.dbl 0x4340000000000000) = true ∧ opEq (.dbl 0x4340000000000000) (.i64 9007199254740992) = true ∧
+    opEq (.i64 9007199254740993) (.i64 9007199254740992) = false ∧
+    finite (.i64 9007199254740993) = true ∧ finite (.dbl 0x4340000000000000) = true ∧ finite (.i64 9007199254740992) = true := by
+  simp only [opEq, Compare.compare, finite]; decide
+
+/-- `<` has a cycle: 5 < json() < 1.0 < 5. `dom mcmp I5 E` → c-1; `dom mcmp E d3ff0000000000000` → c-1; `dom mcmp d3ff0000000000000 I5` → c-1 -/
+theorem lt_cycle_through_empty_object :
+    opLt (.i64 5) .emptyObj = true ∧ opLt .emptyObj (.dbl 0x3ff0000000000000) = true ∧ opLt (.dbl 0x3ff0000000000000) (.i64 5) = true := by
+  simp only [opLt, Compare.compare]; decide
+
+/-- `json() == json(json_object_arg)` but `json() < 1.0` and `json(json_object_arg) > 1.0`.
+    `dom mcmp E { }` → c0; `dom mcmp E d3ff0000000000000` → c-1; `dom mcmp { } d3ff0000000000000` → c1 -/
+theorem eq_not_congruent_empty_object :
+    opEq .emptyObj (.obj []) = true ∧ opLt .emptyObj (.dbl 0x3ff0000000000000) = true ∧ opLt (.obj []) (.dbl 0x3ff0000000000000) = false := by
+  simp [opEq, opLt, Compare.compare]; decide
+
+/-- `<` has a cycle: "b" < bytes(01) < "aaaaaaaaaaaaaa" (14 bytes, long_str) < "b".
+    `dom mcmp s62 b01` → c-1; `dom mcmp b01 s6161616161616161616161616161` → c-1; `dom mcmp s6161616161616161616161616161 s62` → c-1 -/
+theorem lt_cycle_short_long_strings :
+    opLt (.str [98]) (.bstr [1]) = true ∧ opLt (.bstr [1]) (.str (List.replicate 14 97)) = true ∧
+    opLt (.str (List.replicate 14 97)) (.str [98]) = true := by
+  simp [opLt, Compare.compare]; decide
+
+/-- `<` has a cycle on arrays of numbers: [2^53, 5] < [2^53+1, 0] < [2^53 (double), 1] < [2^53, 5].
+    `dom mcmp [ I9007199254740992 I5 ] [ I9007199254740993 I0 ]`, `dom mcmp [ I9007199254740993 I0 ] [ d4340000000000000 I1 ]`,
+    `dom mcmp [ d4340000000000000 I1 ] [ I9007199254740992 I5 ]` → c-1 each -/
+theorem lt_cycle_arrays_beyond_2_53 :
+    opLt (.arr [.i64 9007199254740992, .i64 5]) (.arr [.i64 9007199254740993, .i64 0]) = true ∧
+    opLt (.arr [.i64 9007199254740993, .i64 0]) (.arr [.dbl 0x4340000000000000, .i64 1]) = true ∧
+    opLt (.arr [.dbl 0x4340000000000000, .i64 1]) (.arr [.i64 9007199254740992, .i64 5]) = true := by
+  simp only [opLt, Compare.compare, arrEq, arrLt]; decide
+
+/-! non-vacuity of the domain: nested values of every kind are in `dom false` -/
+example : dom false (.arr [.null, .bool true, .i64 (-9007199254740992), .u64 9007199254740992, .dbl 0x3ff8000000000000, .half 0x3c00,
+    .str [97], .bstr [0], .obj [([97], .arr []), ([98], .obj [])]]) = true := by decide
+example : dom true (.obj [([97], .str (List.replicate 14 97))]) = true := by decide
+
+end whole
+
 /-! non-vacuity: the hypotheses are met by concrete states -/
 example : Sorted ([([97], JVal.null), ([98], JVal.bool true)] : List (Bytes × JVal)) := ⟨by decide, trivial⟩
 example : (Model.Compare.Stored.i64 (-1)).WF ∧ (Model.Compare.Stored.u64 (2 ^ 64 - 1)).WF := by
   constructor <;> simp [Model.Compare.Stored.WF]
-example : Model.Compare.compare (.i64 (-1)) (.u64 (2 ^ 64 - 1)) = -1 := by decide
+example : Model.Compare.compareStored (.i64 (-1)) (.u64 (2 ^ 64 - 1)) = -1 := by decide
 
 end C09
 end Props
